@@ -1658,7 +1658,7 @@ pub fn run_trace(
         // backward search for the base of every mark): the allowance is 0.1 us per pair of
         // glyphs of the returned run (a run the library lets grow without bound still ends in
         // the heap budget or the watchdog).
-        let run_len = extra.shape.as_ref().map(|sf| sf.len as u64).unwrap_or(0);
+        let run_len = extra.shape.as_ref().map(|sf| sf.len_shaped as u64).unwrap_or(0);
         let cpu_limit = CPU_BASE_US
             + CPU_PER_BYTE_US * (env.font_len as u64 + op.arg_len() as u64)
             + run_len.saturating_mul(run_len) / 10;
